@@ -1,5 +1,6 @@
 //! simcheck — deterministic-simulation harness for assets_manager (see /verif/DESIGN.md).
 mod common;
+mod graph;
 mod hist;
 mod model;
 mod recipe;
